@@ -1232,6 +1232,7 @@ def _dict_method(I, d, rid, name, args, kwargs):
     if name == "pop":
         key = I.lift(args[0])
         if st.decide(z3.Select(dom, key), "pop-present"):
+            st.dict_read(d, key)
             v = st.wf_read(z3.Select(val, key))
             h.ddom = z3.Store(h.ddom, rid, z3.Store(dom, key, False))
             h.dlen = z3.Store(h.dlen, rid, z3.Select(h.dlen, rid) - 1)
